@@ -5,7 +5,9 @@
 // and hands it to sygma-core's real Relayer (route.go).  The real deposit
 // handlers (and, on EVM, the real events.Listener ABI decoding) sit underneath, so the bytes decide
 // what a poisoned deposit yields.  Every case runs in a CHILD PROCESS (this binary re-executed with
-// -child, address space capped, deadline per case) so that a crash is an observation.
+// -child, address space capped, deadline per case) so that a crash is an observation and a child that
+// does not answer is the observation `hung` (processing the range does not terminate).  Messages are
+// compared as (destination, nonce, content number): see fp.go.
 package main
 
 import (
@@ -32,8 +34,12 @@ type Dep struct {
 	// rawlog otheraddr            : EVM log whose data does not unpack / (retry) log of another contract
 	// sub subtt subfield subother : Substrate deposit / transfer type 1 / ill-typed nonce field / other event
 	// btc btcnopay btclowfee      : BTC transaction paying the bridge / not paying it / paying too small a fee
-	Kind   string `json:"kind"`
-	Dest   uint8  `json:"dest"`
+	Kind string `json:"kind"`
+	Dest uint8  `json:"dest"`
+	// the deposit nonce the event carries (BTC: the transaction - its hash, from which the handler
+	// computes the nonce, is this number).  Deposits of one case may SHARE it: nonces are counted per
+	// destination domain.  A case without any nonce (older corpus files) gets the 1-based positions.
+	Nonce  uint64 `json:"nonce,omitempty"`
 	Data   string `json:"data"`         // hex calldata (EVM, Substrate) | raw log data (rawlog) | the OP_RETURN script's hex STRING as the node reports it (BTC; may be ill-formed hex)
 	HR     string `json:"hr,omitempty"` // hex handler response (EVM)
 	Status string `json:"st,omitempty"` // retry v1: "" (missing) | pending | failed | executed | storeerr
@@ -53,19 +59,27 @@ type DepObs struct {
 	Good bool   `json:"good"`          // satisfies the wire format of its handler - the runner's copy of wf, used for the statistics only (the judge evaluates the Coq predicates)
 	Out  string `json:"out,omitempty"` // what the real handler did on it alone: ok err panic skip
 	Dest uint8  `json:"dest"`          // destination of the produced message
+	Fp   uint64 `json:"fp,omitempty"`  // number of the CONTENT of the produced message within the case (fp.go); 0: none
 }
 
 type Group struct {
-	Dest   uint8    `json:"dest"`
-	Nonces []uint64 `json:"nonces"`
+	Dest uint8       `json:"dest"`
+	Msgs [][2]uint64 `json:"msgs"` // (nonce, content number) of every message the destination chain received, in order
 }
 
 type Obs struct {
-	Crashed bool       `json:"crashed"`
-	Failed  bool       `json:"failed"`
-	Note    string     `json:"note,omitempty"`
-	Groups  []Group    `json:"groups"` // per destination chain: what it received through the real Relayer.route
-	Deps    [][]DepObs `json:"deps"`
+	Crashed bool `json:"crashed"`
+	// the child did not answer within its deadline (twice, for the first such case of a run):
+	// processing the range does not terminate
+	Hung bool `json:"hung,omitempty"`
+	// after maxHung hung cases the remaining cases of the run are not driven any more (the verdict is
+	// a violation already; every further hung case would cost its whole deadline)
+	NotDriven bool       `json:"not_driven,omitempty"`
+	Stuck     bool       `json:"stuck,omitempty"` // with crashed: Relayer.route did not finish within routeDeadline
+	Failed    bool       `json:"failed"`
+	Note      string     `json:"note,omitempty"`
+	Groups    []Group    `json:"groups"` // per destination chain: what it received through the real Relayer.route
+	Deps      [][]DepObs `json:"deps"`
 	// the batches HandleEvents pushed to the message channel (canonical order); null = a nil message
 	Sent [][]*SentMsg `json:"sent"`
 }
@@ -111,7 +125,23 @@ func emptyDeps(c Case) [][]DepObs {
 	return out
 }
 
-func run(c Case) Obs {
+// Deadline of one case.  A healthy case needs milliseconds (a fresh child: well under a second), so a
+// child that has not answered after caseDeadline is stuck in the code under test.  The first such
+// case of a run is driven a second time on a fresh child (a stall of the machine is not a hang of
+// the code); from then on the deadline is hungDeadline, and after maxHung hung cases the rest of
+// the run is not driven: against a change that makes every other range hang the quick check still
+// ends in about a minute.
+var (
+	caseDeadline = 10 * time.Second
+	hungSeen     = 0
+)
+
+const (
+	hungDeadline = 3 * time.Second
+	maxHung      = 4
+)
+
+func runOnce(c Case, deadline time.Duration) (o Obs, timedOut bool) {
 	if cur == nil {
 		cur = startChild()
 	}
@@ -135,17 +165,45 @@ func run(c Case) Obs {
 		if r.err == nil {
 			var o Obs
 			if err := json.Unmarshal(r.b, &o); err == nil {
-				return o
+				return o, false
 			}
 		}
 		cur.kill()
 		cur = nil
-		return Obs{Crashed: true, Note: "child process died", Deps: emptyDeps(c), Groups: []Group{}}
-	case <-time.After(60 * time.Second):
+		return Obs{Crashed: true, Note: "child process died", Deps: emptyDeps(c), Groups: []Group{}}, false
+	case <-time.After(deadline):
 		cur.kill()
 		cur = nil
-		return Obs{Crashed: true, Note: "deadline exceeded", Deps: emptyDeps(c), Groups: []Group{}}
+		return Obs{Hung: true, Note: fmt.Sprintf("processing the range does not terminate (no answer from the child within %v)", deadline),
+			Deps: emptyDeps(c), Groups: []Group{}}, true
 	}
+}
+
+func run(c Case) Obs {
+	c = normalise(c)
+	if hungSeen >= maxHung {
+		return Obs{NotDriven: true, Note: fmt.Sprintf("not driven: %d cases of this run hung already", hungSeen), Deps: emptyDeps(c), Groups: []Group{}}
+	}
+	o, timedOut := runOnce(c, caseDeadline)
+	if timedOut && hungSeen == 0 {
+		if o2, again := runOnce(c, caseDeadline); !again {
+			return o2
+		}
+	}
+	if timedOut {
+		hungSeen++
+		caseDeadline = hungDeadline
+	}
+	if o.Crashed && o.Stuck {
+		// the child answered, but the consumer (Relayer.route) did not finish: its relayer is stuck,
+		// the next case gets a fresh child; counted like a hung case (each costs a whole deadline)
+		if cur != nil {
+			cur.kill()
+			cur = nil
+		}
+		hungSeen++
+	}
+	return o
 }
 
 // ---- child side ------------------------------------------------------------------------------------
@@ -178,10 +236,10 @@ func childMain() {
 	}
 }
 
-func sortedGroups(m map[uint8][]uint64) []Group {
+func sortedGroups(m map[uint8][][2]uint64) []Group {
 	gs := make([]Group, 0, len(m))
 	for k, v := range m {
-		gs = append(gs, Group{Dest: k, Nonces: v})
+		gs = append(gs, Group{Dest: k, Msgs: v})
 	}
 	sort.Slice(gs, func(i, j int) bool { return gs[i].Dest < gs[j].Dest })
 	return gs
@@ -232,7 +290,7 @@ func coqItem(d Dep, do DepObs) string {
 	default:
 		meas = "MSkip"
 	}
-	return fmt.Sprintf("(mkItem %s %s %s %s %s %s)", kind, vgen.N(uint64(d.Dest)), vgen.Hex(mustUnhex(data)), vgen.Hex(mustUnhex(hr)), meas, coqStatus(d.Status))
+	return fmt.Sprintf("(mkItem %s %s %s %s %s %s %s %s)", kind, vgen.N(uint64(d.Dest)), vgen.N(d.Nonce), vgen.Hex(mustUnhex(data)), vgen.Hex(mustUnhex(hr)), meas, vgen.N(do.Fp), coqStatus(d.Status))
 }
 
 func mustUnhex(s string) []byte {
@@ -243,7 +301,14 @@ func mustUnhex(s string) []byte {
 	return b
 }
 
+func nf(x [2]uint64) string { return vgen.Pair(vgen.N(x[0]), vgen.N(x[1])) }
+
 func coq(c Case, o Obs) string {
+	if o.NotDriven {
+		// a filler: the empty range, on which nothing is demanded
+		return "Case " + c.Path + " [] false false false [] []"
+	}
+	c = normalise(c)
 	evs := make([]string, len(c.Events))
 	for i, e := range c.Events {
 		if e.Skip {
@@ -256,16 +321,16 @@ func coq(c Case, o Obs) string {
 		}
 		evs[i] = "IDeps " + vgen.List(ds)
 	}
-	return "Case " + c.Path + " " + vgen.List(evs) + " " + vgen.Bool(o.Crashed) + " " + vgen.Bool(o.Failed) + " " +
+	return "Case " + c.Path + " " + vgen.List(evs) + " " + vgen.Bool(o.Crashed) + " " + vgen.Bool(o.Hung) + " " + vgen.Bool(o.Failed) + " " +
 		vgen.ListOf(o.Groups, func(g Group) string {
-			return vgen.Pair(vgen.N(uint64(g.Dest)), vgen.ListOf(g.Nonces, vgen.N))
+			return vgen.Pair(vgen.N(uint64(g.Dest)), vgen.ListOf(g.Msgs, nf))
 		}) + " " +
 		vgen.ListOf(o.Sent, func(b []*SentMsg) string {
 			return vgen.ListOf(b, func(m *SentMsg) string {
 				if m == nil {
 					return "None"
 				}
-				return vgen.Some(vgen.Pair(vgen.N(uint64(m.Dest)), vgen.N(m.Nonce)))
+				return vgen.Some(vgen.Pair(vgen.N(uint64(m.Dest)), nf([2]uint64{m.Nonce, m.Fp})))
 			})
 		})
 }
@@ -334,6 +399,6 @@ func main() {
 			}
 			return g && b
 		},
-		Rule: "per path (EVM/Substrate/BTC ProcessDeposits, EVM RetryV1, Substrate Retry): every poison of the catalogue (empty, 1 byte, guard-1, guard, length words 2^63-1 / 2^63 / 2^64-20 / 2^64+20 / 2^255 / 2^256-1, truncated tails, 1..31-byte handler responses, ERC1155 offsets outside, OP_RETURN of 0/1/2 bytes, no '_', non-numeric domain, ill-typed Substrate fields, unparsable logs, unknown resources) at every position of a range of three healthy neighbours, each poison alone at its destination among healthy deposits for other destinations, all-poison ranges, plus random ranges of 1..6 deposits in 1..3 events with several poisons; HandleEvents is driven, every batch on the message channel is observed and routed through sygma-core's real Relayer.route in the child process; distinct = distinct input JSON; non-trivial = the range holds at least one poisoned and at least one well-formed deposit",
+		Rule: "per path (EVM/Substrate/BTC ProcessDeposits, EVM RetryV1, Substrate Retry): every poison of the catalogue (empty, 1 byte, guard-1, guard, length words 2^63-1 / 2^63 / 2^64-20 / 2^64+20 / 2^255 / 2^256-1, truncated tails, 1..31-byte handler responses, ERC1155 offsets outside, OP_RETURN of 0/1/2 bytes, no '_', non-numeric domain, ill-typed Substrate fields, unparsable logs, unknown resources) at every position of a range of three healthy neighbours, each poison alone at its destination among healthy deposits for other destinations, all-poison ranges, random ranges of 1..6 deposits in 1..3 events with several poisons, plus ranges whose deposits share field values (same nonce for another destination, same destination and nonce, same bytes with another nonce / destination, same recipient with another amount, a poison carrying a healthy deposit's nonce, byte-identical duplicates, a retried transaction / block named twice); HandleEvents is driven, every batch on the message channel is observed and routed through sygma-core's real Relayer.route in the child process; distinct = distinct input JSON; non-trivial = the range holds at least one poisoned and at least one well-formed deposit",
 	})
 }
